@@ -161,10 +161,6 @@ def check_lists(pas, got, sort_gids=False, ref=None):
                 probs.append(('spurious', (di, si, i, sorted(l),
                                            sorted(extra))))
                 continue
-            if sort_gids and len(l) > 1:
-                g = [int(gids[j]) for j in l]
-                if g != sorted(g):
-                    probs.append(('unsorted', (di, si, i, l, g)))
     return probs
 
 
